@@ -745,8 +745,8 @@ def gate_schedule_in_the_past(seed, params):
 
 @scenario("industrial.late_start_gate_schedule", FAMILY)
 def late_start_gate_schedule(seed, params):
-    """gate.start_events() obtained while the clock is already at the first arrival (gate switched on mid-run):
-    the first window of the absolute schedule has elapsed, the second is still ahead."""
+    """gate.start_events() obtained while the clock is already at the first arrival (gate switched on mid-run);
+    both windows of the absolute schedule are still ahead."""
     p = P(params, seed)
     sink = Sink("sink")
     arr = p.arrivals(8)
@@ -754,7 +754,9 @@ def late_start_gate_schedule(seed, params):
     t0s = t0 / 1e9
     u = unit(p, t0, 6)
     srv = Server("dock", concurrency=1, service_time=ConstantLatency(p.lat(1)), downstream=sink)
-    gate = GateController("gate", srv, schedule=[(t0s / 3, t0s / 2), (t0s + u, t0s + 2 * u)], initially_open=False)
+    # The schedule is in absolute times: windows that already elapsed when start_events() is asked for
+    # would be the caller's mistake (an absolute schedule in the past), so both windows lie ahead.
+    gate = GateController("gate", srv, schedule=[(t0s + u / 3, t0s + u / 2), (t0s + u, t0s + 2 * u)], initially_open=False)
 
     def switch_on(proc, event):
         proc.done += 1
